@@ -69,6 +69,7 @@ class FuncInfo:
             self.qual = module.name + "." + node.name
         self.params = [a.arg for a in node.args.args]
         self.is_static = any(isinstance(d, ast.Name) and d.id == "staticmethod" for d in node.decorator_list)
+        self.is_classmethod = any(isinstance(d, ast.Name) and d.id == "classmethod" for d in node.decorator_list)
         self.is_property = any(isinstance(d, ast.Name) and d.id == "property" for d in node.decorator_list)
         self.is_generator = self._own_yield(node)
         self.defaults = {}
@@ -739,7 +740,8 @@ def closed_world_audit(prog):
                         offending.append((m.path, node.lineno, "@" + txt))
             elif isinstance(node, ast.FunctionDef) and node.decorator_list:
                 for d in node.decorator_list:
-                    if isinstance(d, ast.Name) and d.id in ("staticmethod", "property"):
-                        continue      # modelled: called without binding a receiver / read-only accessor inlined at the attribute read
+                    if isinstance(d, ast.Name) and d.id in ("staticmethod", "property", "classmethod"):
+                        continue      # modelled: called without binding a receiver (classmethod: the class bound to its first parameter) /
+                                      # read-only accessor inlined at the attribute read
                     offending.append((m.path, node.lineno, "@" + ast.unparse(d)))
     return modelled, offending
